@@ -107,7 +107,8 @@ def rotator_case(draw):
                                  "uniform-scalar"]))
     return {"g": g, "kind": kind, "v": [draw(st.integers(-5, 5)) for _ in range(3)], "a": [draw(st.integers(-3, 3)) for _ in range(3)],
             "b": draw(st.integers(-4, 4)), "perm": list(draw(st.permutations(range(3)))), "vdims": draw(gen.vdims_strategy(3)),
-            "seed": draw(st.integers(0, 2**31)), "steps": draw(st.lists(rot_step(), min_size=1, max_size=4))}
+            "seed": draw(st.integers(0, 2**31)), "steps": draw(st.lists(rot_step(), min_size=1, max_size=4)),
+            "int_dtype": draw(st.booleans())}
 
 
 def build_field(case):
@@ -130,6 +131,16 @@ def build_field(case):
             arr = np.full((*n, 1), float(case["b"] + 0.5))
         else:
             arr = gen.make_array(case["seed"], (*n, 1), "int")
+        if case.get("int_dtype") and kind == "random-scalar":
+            arr = arr.astype(np.int64)
+            return mesh, df.Field(mesh, nvdim=1, value=arr, dtype=np.int64), arr, None
+        if case.get("int_dtype") and kind == "linear-scalar" and all(float(a).is_integer() for a in case["a"]):
+            # integer-valued linear scalar stored with an integer dtype (values at the cell centres are half-integers
+            # times integers: scale by 2 to stay integral)
+            arr2 = np.round(arr * 2).astype(np.int64)
+            if np.array_equal(arr2, arr * 2):
+                case["_scale2"] = True
+                return mesh, df.Field(mesh, nvdim=1, value=arr2, dtype=np.int64), arr2.astype(float), None
         return mesh, df.Field(mesh, nvdim=1, value=arr), arr, None
     labels = case["vdims"] or ["x", "y", "z"]
     # component c is mapped to axis perm[c]
@@ -140,6 +151,7 @@ def build_field(case):
     else:
         arr = gen.make_array(case["seed"], (*n, 3), "int")
     kw = {"vdims": list(case["vdims"])} if case["vdims"] else {}
+    mapping = gen.shuffled_mapping(mapping, case["seed"])
     return mesh, df.Field(mesh, nvdim=3, value=arr, vdim_mapping=mapping, **kw), arr, case["perm"]
 
 
@@ -219,7 +231,7 @@ def check_rotator(case):
             if inside.any() and np.max(np.abs(vals[inside] - (case["b"] + 0.5))) > 1e-9 * 5:
                 raise Violation("uniform-scalar", f"step {si}")
         elif case["kind"] == "linear-scalar":
-            want = case["b"] + (P / cell) @ np.array(case["a"], float)
+            want = (case["b"] + (P / cell) @ np.array(case["a"], float)) * (2 if case.get("_scale2") else 1)
             tol = 1e-9 * (abs(case["b"]) + 10 * max(1, max(abs(x) for x in case["a"])))
             if inside.any() and np.max(np.abs(vals[..., 0][inside] - want[inside])) > tol:
                 i = tuple(np.argwhere(inside & (np.abs(vals[..., 0] - want) > tol))[0])
@@ -259,7 +271,7 @@ def check_quarter(case):
     arr = gen.make_array(case["seed"], (*n, k), "int")
     kw = {}
     if k == 3:
-        kw["vdim_mapping"] = {["x", "y", "z"][i]: dims[case["perm"][i]] for i in range(3)}
+        kw["vdim_mapping"] = gen.shuffled_mapping({["x", "y", "z"][i]: dims[case["perm"][i]] for i in range(3)}, case["seed"])
     f = df.Field(mesh, nvdim=k, value=arr, **kw)
     ax = case["axis"]
     a, b = [(1, 2), (2, 0), (0, 1)][ax]  # right-handed: rotation about ax turns a towards b
